@@ -14,17 +14,17 @@ NA = {
 NOTE = "sampling, not proof; tokio primitives trusted; thread preemption represented by the H3 yield point only; the transport is an ordered reliable byte stream until it fails"
 CHECKS = {
  "C01": ("exploration", "seeded search over schedules, read/write segmentations, reply orders and unsolicited traffic (family MUX); every value a caller receives is compared with a reference model of the server plan, so a misrouted, reordered, invented or lost response is a violation", "6 C01", "seeded schedule search, reference-model oracle over the recorded history"),
- "C10": ("exploration", "seeded call sequences over next/finish/state on direct, EntriesOnly and search() streams against generated item sequences (family STREAM); every returned value and state is compared call by call with an executable model of the documented stream state machine; a panic in a stream call is a violation", "6 C10", "seeded history search against an executable reference model of the stream state machine"),
+ "C10": ("exploration", "seeded call sequences over next/finish/state on direct, EntriesOnly and search() streams against generated item sequences (family STREAM); every returned value and state is compared call by call with an executable model of the documented stream state machine; a panic in a stream call is a violation; error episodes (search abandoned through the stream's handle, a failing adapter of the caller's own) exercise the Error state", "6 C10", "seeded history search against an executable reference model of the stream state machine"),
  "C13": ("exploration", "seeded histories of every operation lifecycle with barriers (family LEAK); at each quiescent checkpoint the simulator snapshots the message-ID table and both routing maps (hooks H2/H4) and requires them empty; abandon clauses checked on the wire and on the abandoned caller", "6 C13", "seeded history search with invariants at simulator-detected quiescent points"),
- "C02": ("exploration", "seeded SEQ scenarios put every operation kind with generated arguments and every combination of one-shot modifiers on one handle (plus MUX scenarios for concurrent handles); the scripted server decodes each request with the harness's own strict RFC 4511 decoder and the result is compared with a request model built from the call arguments and a reference model of the handle's modifier state", "6 C02", "seeded history search; independent strict decoder at the simulated peer plus modifier-state reference model"),
+ "C02": ("exploration", "seeded SEQ scenarios put every operation kind with generated arguments and every combination of one-shot modifiers on one handle (plus MUX scenarios for concurrent handles); the scripted server decodes each request with the harness's own strict RFC 4511 decoder and the result is compared with a request model built from the call arguments and a reference model of the handle's modifier state; one script in 120 carries an element of 64 KiB - 1 MiB; lane PAGED applies the request model to every page request of a paged search", "6 C02", "seeded history search; independent strict decoder at the simulated peer plus modifier-state reference model"),
  "C03": ("exploration", "seeded SEQ scenarios answer every operation with generated results (all codes, UTF-8 strings, referrals, controls in every presence combination, extended name/value, random legal length forms on every TLV); the value the caller receives is compared field by field with the response model; success()/non_error()/equal() are evaluated on the returned value against the documented table; MUX scenarios repeat the comparison under concurrency", "6 C03", "seeded history search; response reference model at the simulated peer"),
  "C06": ("exploration", "per seeded response burst every two-chunk split point, one-byte delivery, frame-aligned +-1, random chunking and read caps; later chunks arrive one simulated millisecond later, so a message surfaced before its last byte or bytes eaten from the next message show up as an early return, a wrong value or a hang", "6 C06", "seeded partition sweep of the response byte stream on the simulated network"),
  "C11": ("exploration", "seeded HOSTILE scenarios splice one hostile item (random bytes, bit flips, every single-field mutation of a valid frame, malformed controls and result bodies, nesting up to 200 000 levels) into the response stream while operations are pending; the driver may not panic, the worker process may not die (each run on a 2 MiB stack inside a supervised child), every pending call must be released in the instant the announced bytes have arrived (not a simulated second later when the server closes), and non-envelope input must end drive() with an error", "6 C11", "seeded fault injection at the byte level with process supervision"),
- "C14": ("exploration", "differential simulation (sampled, reported as exploration): every seeded script over the whole LdapConn / EntryStream surface runs once through Ldap / SearchStream and once through the synchronous facade (hook H5) against the same scripted server on the same kind of paused-clock runtime; decoded wire transcripts, returned values, last_id and virtual completion times must agree up to the point where the connection is compromised (after that the order in which driver and caller notice the loss is schedule-dependent and only reported as coverage)", "6 C14", "differential simulation of the two API surfaces against one scripted peer"),
- "C16": ("exploration", "seeded PAGED scenarios run searches through the PagedResults adapter (alone, before or behind EntriesOnly) against a paging server model; entries returned are compared with the concatenation of all pages, every request the server decodes with the first request and with the cookie chain the server handed out, the final result with the last page's result minus the paging control; caller-supplied paging controls must be refused", "6 C16", "seeded history search against a paging reference model at the simulated peer"),
+ "C14": ("exploration", "differential simulation (sampled, reported as exploration): every seeded script over the whole LdapConn / EntryStream surface runs once through Ldap / SearchStream and once through the synchronous facade (hook H5) against the same scripted server on the same kind of paused-clock runtime; decoded wire transcripts, returned values, last_id and virtual completion times must agree up to the point where the connection is compromised (after that the order in which driver and caller notice the loss is schedule-dependent and only the outcome class - failed / refused locally / value - of single operations, search() and the waiting next() is compared); scripts include searches the server never finishes, ended by a timeout or by the server hanging up", "6 C14", "differential simulation of the two API surfaces against one scripted peer"),
+ "C16": ("exploration", "seeded PAGED scenarios run searches through the PagedResults adapter (alone, before or behind EntriesOnly) against a paging server model; entries returned are compared with the concatenation of all pages, every request the server decodes with the first request and with the cookie chain the server handed out, the final result with the last page's result minus the paging control; caller-supplied paging controls must be refused; lane PAGEDFAULT cuts the connection at every frame boundary of a paged search and requires: entries are a prefix of the result set exactly once and in order, the end is reported only after the last page, no result from finish() carries a paging control", "6 C16", "seeded history search against a paging reference model at the simulated peer"),
  "C17": ("exploration", "seeded establishment scripts through the real with_settings (async and sync) over kernel loopback sockets and real TLS (OpenSSL via native-tls) against a scripted adversarial peer with a CA generated at start-up: every StartTLS answer class, handshake refused / garbage / silent, untrusted or wrong-name certificate under every verification setting, cleartext reply injected after the StartTLS response; the peer records everything it reads in cleartext; Ok is accepted only after a completed acceptable handshake, and the injected reply may never answer the protected bind. Weaker than the simulated lanes: kernel scheduling and TCP segmentation are real, only the peer and the clock are simulated; the oracle is safety-only and timers are armed only where the peer never answers", "6 C17", "scripted adversarial peer and simulated clock around the real establishment code (fault injection at the protocol level)"),
  "C18": ("exploration", "seeded URL x settings combinations through the real with_settings (async on a paused clock, sync where no timer is involved) against harness-owned loopback listeners and Unix sockets: which endpoint is reached or which error class is returned is compared with the statement (default ports 389/636, missing host = localhost, percent-decoded ldapi path, stream type must match the scheme, timeout bounds StartTLS / TLS establishment against a stalling peer); any panic is a violation. Same limits as C17", "6 C18", "scripted endpoints and simulated clock around the real establishment code"),
- "C04": ("fault_enumeration", "per seeded exchange a fault-free reference run fixes the byte lengths and the decision trace; then EOF / reset at every response byte boundary, write error / server close at every request byte boundary, every flush, an undecodable frame before every response frame, unbind and handle drop at every step; each run is checked for termination of every call and of drive(), no invented values, survival of fully delivered replies (exactly, for read-side faults), immediate failure of later operations, and transport close on unbind / last drop; worker processes are supervised so that an in-poll spin or crash is caught", "6 C04", "fault enumeration over every byte boundary of seeded exchanges, replaying the reference schedule up to the fault"),
+ "C04": ("fault_enumeration", "per seeded exchange a fault-free reference run fixes the byte lengths and the decision trace; then EOF / reset at every response byte boundary, write error / server close at every request byte boundary, every flush, an undecodable frame before every response frame, unbind and handle drop at every step; each run is checked for termination of every call and of drive(), no invented values, survival of fully delivered replies (exactly, for read-side faults), immediate failure of later operations, and transport close on unbind / last drop; worker processes are supervised so that an in-poll spin or crash is caught. Lane PAGEDFAULT cuts paged searches at every response frame boundary. Lane REALIO repeats the termination clauses on the transports the simulator replaces by its in-memory pipe (kernel TCP, Unix sockets, TLS and StartTLS through native-tls; async and sync API) against a scripted peer thread: unbind / last drop must be seen as end of stream by the peer, peer close / reset / garbage must release every waiting call and drive() - weaker level there: real kernel and thread timing inside a case, real-time guards that only expire on a violation", "6 C04", "fault enumeration over every byte boundary of seeded exchanges, replaying the reference schedule up to the fault"),
  "C12": ("exploration", "seeded TIME scenarios with replies and search items before / at / after deadlines on a simulated clock; every call's value and virtual completion time is compared with a timing model computed from the recorded delivery times (ties are either-outcome); late replies must reach nobody; tables must be clean at quiescent checkpoints", "6 C12", "seeded schedule and timing search on a simulated clock with a timing reference model"),
  "C05": ("exploration", "two engines. (1) ldapsim: seeded IDS scenarios position the ID counter at the upper end with arbitrary IDs in use and move it to just below IDs of searches that are still outstanding; server-side check of range / pre-seeded / still-outstanding IDs on every request, table snapshots (hook H4) around every allocation for the wrap-around rule; H3 yield makes wire order differ from allocation order; MUX runs are checked server-side as a by-product. (2) ldap3-threads: 2-4 scheduler-controlled threads allocate IDs through cloned handles with the table's mutex under the scheduler (hook H6), seeded random and PCT schedules, counter at the wrap-around point with pre-seeded IDs; duplicates, out-of-range and in-use IDs are assertion failures with a persisted schedule", "6 C05", "seeded schedule and history search with inline invariants at the scripted server and at allocation snapshots"),
 }
@@ -58,7 +58,7 @@ def main():
             "source_commits": list(reversed(hooks)),
             "add_only": True,
         },
-        "engines": [{"name":"ldap3-threads","path":"/verif/threads","serves_properties":["C05"],"kind_free_text":"thread-level deterministic simulation (shuttle seeded random and PCT schedulers, persisted replayable schedules) of the message ID allocator across cloned handles"},{"name":"ldapsim","path":"/verif/sim","serves_properties":sorted(CHECKS),"kind_free_text":"deterministic simulator: own executor on a paused, seeded current-thread tokio runtime without I/O driver; in-memory transport with fault injection; scripted LDAP server with an independent BER codec; reference-model oracles over recorded histories; supervised worker processes; delta-debugging minimiser; replay files"}],
+        "engines": [{"name":"ldap3-threads","path":"/verif/threads","serves_properties":["C05"],"kind_free_text":"thread-level deterministic simulation (shuttle seeded random and PCT schedulers, persisted replayable schedules) of the message ID allocator across cloned handles"},{"name":"ldapsim","path":"/verif/sim","serves_properties":sorted(CHECKS),"kind_free_text":"deterministic simulator: own executor on a paused, seeded current-thread tokio runtime without I/O driver; in-memory transport with fault injection; (lanes ESTABURL / ESTABTLS / REALIO instead run the real establishment and transport code over kernel loopback, Unix sockets and OpenSSL against scripted peer threads); scripted LDAP server with an independent BER codec; reference-model oracles over recorded histories; supervised worker processes; delta-debugging minimiser; replay files"}],
         "checks": checks,
         "not_applicable": na,
         "notes": "see DESIGN.md; known findings and fixed defects: known_findings.json",
